@@ -11,10 +11,16 @@ import os
 
 from .. import ref
 from ..colab import CONTENTS, LFS, MD5, TREES, hi, listing, make_odb, tree_oid
+from ..lab import RmFaultFS
+from ..lab import make_odb as _make_odb
 from ..world import World, digest_obj, stamp, walk_files, write_file
 
 TAMPERS = ["truncate", "append", "rewrite-same-len", "rewrite-other-len", "replace-by-rename",
            "replace-by-rename-same-len-same-mtime"]
+# fault part: the removal of the object fails (PermissionError) between "deny-rm" and "allow-rm"; the "-halfput"
+# adds go through an upload that writes half of the bytes in place at the final path and then fails
+FAULT_QUERIES = ["check", "exist1", "hcheck", "checkout", "add-verify-good", "add-verify-bad", "xfer-verify-bad",
+                 "add-verify-good-halfput", "add-verify-good-halfput-force"]
 QUERIES = ["check", "check-upper", "exist1", "exist2", "exist-bulk", "hcheck", "checkout", "add-verify-good", "add-verify-bad",
            "add-verify-good-force", "add-verify-bad-force", "xfer-verify-bad"]
 # a legacy (md5-dos2unix) store holding a CRLF text object that spans two hashing chunks
@@ -58,8 +64,11 @@ def tamper(path, how, keep_protected=False, near=False, odd_mode=False):
     return new
 
 
-def setup(w, kind, statemode, target):
+def setup(w, kind, statemode, target, fs=None):
     from dvc_data.hashfile.state import State
+
+    def make_odb(kind_, path_, **kw_):   # the store sits on the given (fault-injecting) file system
+        return _make_odb(kind_, path_, fs=fs, **kw_)
 
     state = None
     if statemode == "warm":
@@ -115,8 +124,11 @@ def run_seq(seq, kind, statemode, target, keep_protected=False, near=False, odd_
 
     viol = []
     counted = {"rejections": 0, "acceptances": 0, "protected_tamper_trusted": 0}
+    faulty = "deny-rm" in seq or any("halfput" in o for o in seq)
+    fs_ = RmFaultFS() if faulty else LFS
+    denied = False
     with World() as w:
-        odb, state, oid, good, bad = setup(w, kind, statemode, target)
+        odb, state, oid, good, bad = setup(w, kind, statemode, target, fs=fs_ if faulty else None)
         try:
             good_bytes = open(good, "rb").read()
             path = odb.oid_to_path(oid)
@@ -127,6 +139,10 @@ def run_seq(seq, kind, statemode, target, keep_protected=False, near=False, odd_
             tree_obj = None if legacy else load(odb, hi(tree_oid("A")))  # loaded while everything is intact
             for i, op in enumerate(seq):
                 where = f"step {i} {op} of {seq} kind={kind} state={statemode} target={target}"
+                if op in ("deny-rm", "allow-rm"):
+                    denied = op == "deny-rm"
+                    fs_.deny = frozenset([path]) if denied else frozenset()
+                    continue
                 if op == "unprotect":
                     # the object is left writable but keeps its bytes (an interrupted add, a copied cache):
                     # still intact, any check must accept it (and a local store re-protects it)
@@ -153,6 +169,10 @@ def run_seq(seq, kind, statemode, target, keep_protected=False, near=False, odd_
                         res = "rejected"
                     except FileNotFoundError:
                         res = "notfound"
+                    except PermissionError:
+                        if not denied:
+                            raise
+                        res = "refused"
                 elif op == "check-upper":
                     # the same digest spelled in upper case names no object of the store: nothing may be harmed
                     try:
@@ -174,7 +194,12 @@ def run_seq(seq, kind, statemode, target, keep_protected=False, near=False, odd_
                         from ..lab import BULK_MD5
 
                         ids = list(BULK_MD5.values())[:650] + [oid] + list(BULK_MD5.values())[650:]
-                    got = odb.oids_exist(ids)
+                    try:
+                        got = odb.oids_exist(ids)
+                    except PermissionError:
+                        if not denied:
+                            raise
+                        got = [oid_y]
                     res = "accepted" if oid in got else "rejected"
                     if op == "exist2" and oid_y not in got:
                         viol.append(("intact-object-reported-missing", f"y at {where}"))
@@ -188,17 +213,25 @@ def run_seq(seq, kind, statemode, target, keep_protected=False, near=False, odd_
                         res = "rejected"
                     except FileNotFoundError:
                         res = "notfound"
+                    except PermissionError:
+                        if not denied:
+                            raise
+                        res = "refused"
                 elif op == "checkout":
                     out = w.p(f"out{i}")
                     try:
                         if target in ("file", "legacy", "crlf"):
                             obj = odb.get(oid)
-                            checkout(out, LFS, obj, odb, force=True)
+                            checkout(out, fs_, obj, odb, force=True)
                         else:
-                            checkout(out, LFS, tree_obj, odb, force=True)
+                            checkout(out, fs_, tree_obj, odb, force=True)
                         res = "accepted"
                     except CheckoutError:
                         res = "rejected"
+                    except PermissionError:
+                        if not denied:
+                            raise
+                        res = "refused"
                     got = walk_files(out)
                     wrong = [k for k, v in got.items()
                              if isinstance(v, bytes) and v not in ({CONTENTS[c] for c in TREES["A"].values()} | {good_bytes})]
@@ -237,7 +270,7 @@ def run_seq(seq, kind, statemode, target, keep_protected=False, near=False, odd_
                     now = open(path, "rb").read() if os.path.exists(path) else None
                     if keep_protected and kind == "local" and model == "corrupt":
                         counted["protected_tamper_trusted"] += 1
-                    elif now is not None and now != good_bytes and now != was:
+                    elif now is not None and now != good_bytes and now != was and not denied:
                         # (a corrupt object that was already there and that the base store's existence query
                         # cannot see is not the transfer's doing)
                         viol.append(("verifying-transfer-retained-mismatching-object", f"{now[:30]!r} at {where}"))
@@ -246,21 +279,28 @@ def run_seq(seq, kind, statemode, target, keep_protected=False, near=False, odd_
                 elif op.startswith("add-verify-"):
                     srcp = good if "good" in op else bad
                     errs = []
+                    fs_.half_put = "halfput" in op
                     try:
                         odb.add(srcp, LFS, oid, verify=True, on_error=lambda o, e: errs.append((o, e)),
                                 check_exists=not op.endswith("-force"))
                         res = "added"
                     except Exception as e:  # noqa: BLE001
                         res = f"raised-{type(e).__name__}"
+                    finally:
+                        fs_.half_put = False
+                    if "halfput" in op:
+                        counted["half_written_uploads"] = counted.get("half_written_uploads", 0) + fs_.half_puts
+                        fs_.half_puts = 0
                     now = open(path, "rb").read() if os.path.exists(path) else None
                     if keep_protected and kind == "local" and model == "corrupt":
                         # a corrupt object that kept 0o444 is trusted by design (outside the claim)
                         counted["protected_tamper_trusted"] += 1
                         model = "intact" if now == good_bytes else ("absent" if now is None else "corrupt")
                         continue
-                    if now is not None and now != good_bytes:
+                    if now is not None and now != good_bytes and not (denied and (res != "added" or errs)):
+                        # (while the removal is refused the store cannot drop it - but then the add must not succeed)
                         viol.append(("verify-retained-mismatching-object", f"{now[:30]!r} at {where}"))
-                    if "good" in op:
+                    if "good" in op and "halfput" not in op and not denied:
                         if now != good_bytes:
                             viol.append(("verified-add-of-good-source-did-not-store-it", f"{res} at {where}"))
                         model = "intact" if now == good_bytes else ("absent" if now is None else "corrupt")
@@ -287,8 +327,10 @@ def run_seq(seq, kind, statemode, target, keep_protected=False, near=False, odd_
                     elif claims_integrity:
                         if res == "accepted":
                             viol.append((f"corrupt-object-accepted/{op}", where))
-                        if exists_after:
+                        if exists_after and not denied:
                             viol.append((f"corrupt-object-not-deleted/{op}", where))
+                        if denied and fs_.denied:
+                            counted["refused_removals"] = counted.get("refused_removals", 0) + 1
                         counted["rejections"] += 1
                     if not exists_after:
                         model = "absent"
@@ -308,7 +350,57 @@ def run_seq(seq, kind, statemode, target, keep_protected=False, near=False, odd_
     return viol, counted
 
 
+def fault_seqs(first):
+    """Sequences of the fault part that start with tamper `first`."""
+    halfs = [q for q in FAULT_QUERIES if "halfput" in q]
+    out = []
+    for q1 in FAULT_QUERIES:
+        for q2 in FAULT_QUERIES:
+            out.append(((first, "deny-rm", q1, "allow-rm", q2), "/removal-refused-then-allowed"))
+    for qh in halfs:
+        for q2 in FAULT_QUERIES:
+            out.append(((first, qh, q2), "/half-written-upload"))
+            for q1 in FAULT_QUERIES:
+                out.append(((first, q1, qh, q2), "/half-written-upload"))
+    if first == TAMPERS[0]:
+        for qh in halfs:
+            out.append(((qh,), "/half-written-upload"))
+            for q2 in FAULT_QUERIES:
+                out.append(((qh, q2), "/half-written-upload"))
+    return out
+
+
+def fault_case(case):
+    res = {"n": 0, "trans": 0, "states": [], "outcomes": set(), "nontrivial": set(), "viol": [],
+           "vac": {"rejections": 0, "acceptances": 0, "protected_tamper_trusted": 0}}
+    sigs = set()
+    for seq, suffix in fault_seqs(case["first"]):
+        for target in ("file", "tree"):
+            viol, counted = run_seq(seq, case["kind"], case["state"], target)
+            res["n"] += 1
+            res["trans"] += len(seq)
+            res["vac"]["fault_runs"] = res["vac"].get("fault_runs", 0) + 1
+            for k, v in counted.items():
+                res["vac"][k] = res["vac"].get(k, 0) + v
+            d = digest_obj((seq, target, case["kind"], case["state"], "fault"))
+            res["states"].append(d)
+            res["nontrivial"].add(d)
+            res["outcomes"].add(repr(sorted(v[0] for v in viol)))
+            for sig, detail in viol:
+                sig = sig + suffix
+                if sig not in sigs:
+                    sigs.add(sig)
+                    res["viol"].append((sig, detail, {"seq": list(seq), "kind": case["kind"], "state": case["state"],
+                                                      "target": target, "keep": False, "suffix": suffix}))
+    res["outcomes"] = sorted(res["outcomes"])
+    res["nontrivial"] = sorted(res["nontrivial"])
+    res["sample"] = {"first_op": case["first"], "part": "fault", "kind": case["kind"], "state": case["state"]}
+    return res
+
+
 def run_case(case):
+    if case.get("part") == "fault":
+        return fault_case(case)
     res = {"n": 0, "trans": 0, "states": [], "outcomes": set(), "nontrivial": set(), "viol": [],
            "vac": {"rejections": 0, "acceptances": 0, "protected_tamper_trusted": 0}}
     sigs = set()
@@ -323,7 +415,7 @@ def run_case(case):
             res["n"] += 1
             res["trans"] += len(seq)
             for k, v in counted.items():
-                res["vac"][k] += v
+                res["vac"][k] = res["vac"].get(k, 0) + v
             d = digest_obj((seq, target, case["kind"], case["state"], case["keep"], case.get("near", False)))
             res["states"].append(d)
             if any(o in TAMPERS for o in seq):
@@ -378,6 +470,8 @@ def run_case(case):
 def replay(case):
     v = run_seq(tuple(case["seq"]), case["kind"], case["state"], case["target"], case["keep"],
                 case.get("near", False), odd_mode=case.get("odd_mode", False))[0]
+    if case.get("suffix"):
+        return [(s_ + case["suffix"], d_) for s_, d_ in v]
     if case.get("odd_mode"):
         return [(s_ + "/mode-0466", d_) for s_, d_ in v]
     if case["target"] == "crlf":
@@ -395,7 +489,9 @@ def run(ctx):
         "source, each also with check_exists=False) on a file object and on a directory object (and, sequences "
         "tamper-query / query-tamper-query, on a 1 MiB+ CRLF text object of a legacy md5-dos2unix store) x state {none, cold, warm (entry from before the "
         "tampering)} x both store classes; thorough adds the variants that keep 0o444 (outside the claim, only "
-        "counted); non-trivial = sequence containing a tamper"
+        "counted); fault part: tamper, then the removal of the object refused (PermissionError) during one query and "
+        "permitted again for the next (9 x 9 queries), and adds whose upload writes half of the bytes in place at "
+        "the final path and fails, before / between the queries; non-trivial = sequence containing a tamper"
     )
     ctx.bound = {"depth": depth, "operations": ops, "states": ["none", "cold", "warm"]}
     ctx.assumptions = [
@@ -405,7 +501,8 @@ def run(ctx):
         "checkout of an already loaded directory listing does not need the stored directory object (by design)",
         "tampering that keeps the 0o444 mode on a local store is trusted by design and only counted",
     ]
-    ctx.require("rejections", "acceptances", "legacy_big_text_runs", "crlf_or_odd_mode_runs")
+    ctx.require("rejections", "acceptances", "legacy_big_text_runs", "crlf_or_odd_mode_runs", "fault_runs",
+                "refused_removals", "half_written_uploads")
     cs = []
     keeps = [False, True] if ctx.tier == "thorough" else [False]
     for kind in ("local", "base"):
@@ -417,4 +514,8 @@ def run(ctx):
                         # same tampering, but its mtime differs from the recorded one by 1 microsecond only
                         cs.append({"kind": kind, "state": st, "keep": keep, "first": first, "depth": depth,
                                    "near": True})
+    for kind in ("local", "base"):
+        for st in ("none", "cold", "warm"):
+            for first in TAMPERS:
+                cs.append({"part": "fault", "kind": kind, "state": st, "first": first})
     ctx.run_cases("run_case", cs, chunksize=1, det=2)
